@@ -31,7 +31,28 @@ func attach(w io.Writer, r io.Reader) *attachment {
 
 type tuple [2]interface{}
 
+// exactBytes makes string values of a payload byte-exact: json.Marshal would
+// replace every byte that is not valid UTF-8 with U+FFFD, so that different
+// option values could share a cache key.
+func exactBytes(v interface{}) interface{} {
+	switch x := v.(type) {
+	case string:
+		return []byte(x)
+	case []string:
+		out := make([][]byte, len(x))
+		for i, s := range x {
+			out[i] = []byte(s)
+		}
+		return out
+	default:
+		return v
+	}
+}
+
 func encodePayload(tt []tuple) []byte {
+	for i := range tt {
+		tt[i][1] = exactBytes(tt[i][1])
+	}
 	p, err := json.Marshal(tt)
 	if err != nil {
 		panic(err)
